@@ -38,7 +38,7 @@ EXPLANATION = 'theorems about the model of Timegrid / values_to_grid; correspond
 
 
 def scenarios(seed, tier):
-    n = 800 if tier == 'quick' else 6000
+    n = 1600 if tier == 'quick' else 9600
     for cid, c in G.cases(seed, n):
         yield cid, c
     if tier == 'thorough':
